@@ -16,6 +16,11 @@
 
 using namespace OpenMEEG;
 
+// LAPACKE / BLAS report illegal arguments by printing to the C stdout, which would corrupt the result lines: count instead
+static int xerbla_calls = 0;
+extern "C" void LAPACKE_xerbla(const char*,int) { ++xerbla_calls; }
+extern "C" void cblas_xerbla(blasint,char*,char*,...) { ++xerbla_calls; }
+
 static void put(std::vector<double>& f,const Matrix& M) {      // row-major
     for (size_t i=0;i<M.nlin();++i) for (size_t j=0;j<M.ncol();++j) f.push_back(M(i,j));
 }
